@@ -255,7 +255,9 @@ func (g *gen) shapeCase() error {
 		"Send.snapshot-under-rlock-iterates-copy", "collect.whole-body-under-write-lock", "Listen.registers-under-write-lock",
 		"Listen.watcher-waits-ctx-then-stop", "PullID.defer-cancel", "Delete.send-before-unlock",
 		"changesAfter.only-feeds-always-receiving-stage", "DropExcess.returns-on-every-closed-receive",
-		"mergeCollectionExcess.returns-on-every-closed-receive"}
+		"mergeCollectionExcess.returns-on-every-closed-receive",
+		"Update.send-after-GetAndUpdate-returned", "Value.set.send-after-GetAndUpdate-returned",
+		"Delete.one-Lock-released-on-retry-and-after-send"}
 	if fd := bus.fn("listener", "send"); fd != nil {
 		st := bus.stmts(fd.Body)
 		facts[order[0]] = len(st) >= 3 && st[0] == "l.m.RLock()" && st[1] == "defer l.m.RUnlock()" && strings.HasPrefix(st[2], "select {")
@@ -398,6 +400,43 @@ func (g *gen) shapeCase() error {
 	}
 	facts[order[10]] = closedReturns(util, util.fn("", "DropExcess"))
 	facts[order[11]] = closedReturns(bp, bp.fn("", "mergeCollectionExcess"))
+
+	// Res.v: Update / Value.Set publish after GetAndUpdate has released the lock (RUpdPub holds nothing):
+	// the Send is a top-level statement of the function and no function literal in it sends
+	sendOutside := func(sf *srcFile, fd *ast.FuncDecl, prefix string) bool {
+		if fd == nil {
+			return false
+		}
+		top := indexOf(sf.stmts(fd.Body), func(x string) bool { return strings.HasPrefix(x, prefix) }) >= 0
+		inLit := false
+		ast.Inspect(fd.Body, func(n ast.Node) bool {
+			if fl, ok := n.(*ast.FuncLit); ok {
+				if strings.Contains(sf.str(fl.Body), "bus.Send(") {
+					inLit = true
+				}
+			}
+			return true
+		})
+		return top && !inLit
+	}
+	facts[order[12]] = sendOutside(col, col.fn("Collection", "Update"), "c.bus.Send(")
+	facts[order[13]] = sendOutside(val, val.fn("Value", "set"), "r.bus.Send(")
+	if fd := col.fn("Collection", "Delete"); fd != nil {
+		nLock, nUnlock := 0, 0
+		ast.Inspect(fd.Body, func(n ast.Node) bool {
+			if es, ok := n.(*ast.ExprStmt); ok {
+				switch col.str(es) {
+				case "c.mu.Lock()":
+					nLock++
+				case "c.mu.Unlock()":
+					nUnlock++
+				}
+			}
+			return true
+		})
+		// model: RDelRetry (Unlock; next attempt) and RReturn (Unlock after the Send)
+		facts[order[14]] = nLock == 1 && nUnlock == 2
+	}
 
 	var rl, fl []string
 	jsRows := []any{}
